@@ -509,4 +509,22 @@ Section Clone.
     pose proof (clone_fresh _ _ _ _ _ H x Hr) as Lx. apply upds_other.
     eapply Forall_impl; [|exact Hops]. intros o Ho. cbv beta in *. unfold addr in *. lia.
   Qed.
+
+  (** C20_total: CloneSchemas succeeds on every finite tree (with the budget that reads it) *)
+  Theorem clone_total : forall m h a t, abs m h a = Some t -> exists h' a', clone m h a = Some (h', a').
+  Proof.
+    induction m as [|m IH]; intros h a t Ha; [discriminate|].
+    rewrite abs_unfold in Ha. rewrite clone_unfold.
+    destruct (nth_error h a) as [nd|] eqn:En; [|discriminate].
+    destruct (abs_kids m h (hn_kids nd)) as [ts|] eqn:Ets; [|discriminate]. clear Ha.
+    assert (Hk : forall ks h0 ts0, abs_kids m h0 ks = Some ts0 -> exists h2 ks', clone_kids m ks h0 = Some (h2, ks')).
+    { induction ks as [|[k c] r IHr]; intros h0 ts0 Hts; cbn in Hts |- *.
+      - eauto.
+      - destruct (abs m h0 c) as [tc|] eqn:Eac; [|discriminate].
+        destruct (abs_kids m h0 r) as [tr|] eqn:Ear; [|discriminate].
+        destruct (IH _ _ _ Eac) as (h3 & c' & Ec). rewrite Ec.
+        destruct (clone_P _ _ _ _ _ Ec) as [(e1 & -> & _) _].
+        destruct (IHr _ _ (abs_kids_ext _ _ e1 _ _ Ear)) as (h4 & r' & Er). rewrite Er. eauto. }
+    destruct (Hk _ _ _ Ets) as (h2 & ks' & Ek). rewrite Ek. eauto.
+  Qed.
 End Clone.
